@@ -806,6 +806,7 @@ func c13(c *h.Ctx) {
 		c13Handshake(c, false, other, false, 2)
 		c13Handshake(c, false, other, true, 2)
 	}
+	c13WriteInsideRead(c)
 	// the opening handshake against its model; the JSON entry points
 	c13Hs(c)
 	c13JSON(c)
@@ -1093,4 +1094,138 @@ func c13Handshake(c *h.Ctx, serverCompress, clientCompress, serverFirst bool, vi
 	})
 	c.Hold(res == "ok", "handshake.completed", in, res, "ok")
 	c.Case("handshake/"+in, in, true)
+}
+
+// c13HookConn delivers in[:k], runs hook once from inside the Read call that would deliver in[k], then the rest.
+type c13HookConn struct {
+	wsFake
+	in   []byte
+	pos  int
+	k    int
+	hook func()
+	done bool
+}
+
+func (c *c13HookConn) Read(p []byte) (int, error) {
+	if c.pos == c.k && !c.done {
+		c.done = true
+		c.hook()
+	}
+	if c.pos >= len(c.in) {
+		return 0, io.EOF
+	}
+	end := len(c.in)
+	if c.pos < c.k {
+		end = c.k
+	}
+	n := copy(p, c.in[c.pos:end])
+	c.pos += n
+	return n, nil
+}
+
+// c13WriteInsideRead: an endpoint that writes while one of its reads is in progress (the documented use: one reading
+// and one writing goroutine). The transport delivers the peer's frames up to offset k — inside a frame header, a
+// masking key, a payload, a fragmented or compressed message — and before it delivers the rest the endpoint writes
+// messages of its own. What it reads is what the peer sent; what it writes is what an endpoint that only writes puts
+// on the wire.
+func c13WriteInsideRead(c *h.Ctx) {
+	for _, deflate := range []bool{false, true} {
+		for _, server := range []bool{false, true} {
+			// the peer's messages, written by a real peer connection: a short text, a fragmented binary message (buffer 64),
+			// a ping between them, an empty message, a 70000-byte message
+			peerT := newWsFake(nil)
+			peer := ws.VerifNewConn(peerT, !server, 0, 64, deflate)
+			peerMsgs := []c13Msg{{1, []byte("hello")}, {2, h.LCGBytes(300, 5)}, {1, []byte{}}, {2, h.LCGBytes(70000, 6)}, {1, []byte("bye")}}
+			for i, m := range peerMsgs {
+				peer.WriteMessage(m.ty, m.data)
+				if i == 1 {
+					peer.WriteControl(ws.PingMessage, []byte("p"), time.Now().Add(time.Second))
+				}
+			}
+			in := peerT.Written()
+			write := func(conn *ws.Conn) string {
+				return h.Safe(func() string {
+					if err := conn.WriteMessage(ws.BinaryMessage, h.LCGBytes(200, 9)); err != nil {
+						return "WriteMessage: " + err.Error()
+					}
+					w, err := conn.NextWriter(ws.TextMessage)
+					if err != nil {
+						return "NextWriter: " + err.Error()
+					}
+					w.Write([]byte(strings.Repeat("ab", 100)))
+					w.Write([]byte("c"))
+					if err := w.Close(); err != nil {
+						return "Close: " + err.Error()
+					}
+					return "ok"
+				})
+			}
+			// what an endpoint that only writes puts on the wire (plus the pong the reader sends for the peer's ping);
+			// client frames carry random masking keys, so the written wire is compared after unmasking: parsed frames
+			refT := newWsFake(nil)
+			ref := ws.VerifNewConn(refT, server, 0, 128, deflate)
+			write(ref)
+			refFrames := c.O.Call("ws.parse", roleStr(server), b01(deflate), h.Hex(refT.Written()))
+			strip := func(rep string) string { // frames without their masking keys
+				if !strings.HasPrefix(rep, "ok ") {
+					return rep
+				}
+				var out []string
+				for _, f := range wsParseFrames(rep[3:]) {
+					f.Key = ""
+					out = append(out, f.String())
+				}
+				return strings.Join(out, ",")
+			}
+			n := len(in)
+			var ks []int
+			for k := 1; k < n; k++ {
+				if k < 40 || (c.Thorough() && k < 1200) || k%997 == 0 || (k > n-40) {
+					ks = append(ks, k)
+				}
+			}
+			for _, k := range ks {
+				hc := &c13HookConn{in: in, k: k}
+				conn := ws.VerifNewConn(hc, server, 0, 128, deflate)
+				var wst string
+				hc.hook = func() { wst = write(conn) }
+				var got []c13Msg
+				rst := h.Safe(func() string {
+					for range peerMsgs {
+						t, p, err := conn.ReadMessage()
+						if err != nil {
+							return "read: " + err.Error()
+						}
+						got = append(got, c13Msg{t, p})
+					}
+					return "ok"
+				})
+				same := len(got) == len(peerMsgs)
+				for i := 0; same && i < len(got); i++ {
+					same = got[i].ty == peerMsgs[i].ty && bytes.Equal(got[i].data, peerMsgs[i].data)
+				}
+				desc := fmt.Sprintf("role=%s deflate=%v: the endpoint writes two messages after the transport delivered the first %d of %d bytes of the peer's frames and before it delivers the rest", roleStr(server), deflate, k, n)
+				c.Hold(rst == "ok" && same, "peer_receives_same_sequence.write_inside_read", desc, fmt.Sprintf("%s, %d messages", rst, len(got)), "the peer's 5 messages intact")
+				// the wire this endpoint wrote: the pong for the peer's ping may come before, between or after its own messages
+				// depending on k — drop control frames, compare the data frames with the write-only endpoint's
+				data := func(rep string) string {
+					if !strings.HasPrefix(rep, "ok ") && !strings.Contains(rep, ".") {
+						return rep
+					}
+					var out []string
+					for _, f := range strings.Split(rep, ",") {
+						if parts := strings.Split(f, "."); len(parts) > 2 && (parts[2] == "9" || parts[2] == "10") {
+							continue
+						}
+						out = append(out, f)
+					}
+					return strings.Join(out, ",")
+				}
+				gotFrames := c.O.Call("ws.parse", roleStr(server), b01(deflate), h.Hex(hc.Written()))
+				c.Hold(wst == "ok" && strings.HasPrefix(gotFrames, "ok ") && data(strip(gotFrames)) == data(strip(refFrames)), "writer_wellformed.write_inside_read", desc,
+					wst+" "+h.Trunc(strip(gotFrames), 300), "ok "+h.Trunc(strip(refFrames), 300))
+				c.Case(fmt.Sprintf("write-inside-read/%s/deflate=%v", roleStr(server), deflate), fmt.Sprint(k), true)
+			}
+		}
+	}
 }
